@@ -98,6 +98,7 @@ CHECKS = {
         units=[
             dict(test="TestC08Valid", unit="valid", kind="rapid", checks=(1600, 32000), shards=(8, 16), bin=True),
             dict(test="TestC08Negative", unit="negative", kind="enum", shards=(1, 1)),
+            dict(test="TestC08TooManyDirs", unit="too-many-dirs", kind="enum", shards=(1, 1)),
         ],
     ),
     "C18": dict(
